@@ -236,7 +236,11 @@ class SymNP(types.ModuleType):
         if not isinstance(a, _np.ndarray):
             return a
         if axis is not None and a.ndim > 1:
-            return _np.apply_along_axis(lambda v: self._fold(v, pick), axis, a)
+            moved = _np.moveaxis(a, axis, -1)
+            out = _np.empty(moved.shape[:-1], dtype=object)
+            for idx in _np.ndindex(moved.shape[:-1]):
+                out[idx] = self._fold(moved[idx], pick)
+            return out
         m = None
         for x in a.ravel():
             m = x if m is None else pick(m, x)
